@@ -380,18 +380,18 @@ Lemma slices_total fs F sl : slices_ok fs F sl ->
 Proof.
   induction 1 as [|t|t1 t2 F dt cs sl Hdt Hc Hok IH]; intros t0 F' E.
   - discriminate.
-  - injection E as <- <-. unfold total_time. cbn [map fold_right last]. lra.
+  - injection E as <- <-. unfold total_time. cbn [map fold_right last]. ring.
   - injection E as <- <-. unfold total_time in *. cbn [map fst fold_right].
     specialize (IH t2 F eq_refl). rewrite IH, Hdt.
     change (last (t1 :: t2 :: F) t1) with (last (t2 :: F) t1).
-    rewrite (last_indep F t2 t1 t2). lra.
+    rewrite (last_indep F t2 t1 t2). ring.
 Qed.
 
 Lemma slices_positive fs F sl : slices_ok fs F sl -> StronglySorted Qlt F ->
   Forall (fun s => 0 < fst s) sl.
 Proof.
   induction 1 as [|t|t1 t2 F dt cs sl Hdt Hc Hok IH]; intros Hs; constructor.
-  - cbn. pose proof (sorted_tail_gt _ _ Hs t2 (or_introl eq_refl)). lra.
+  - cbn [fst]. rewrite Hdt. pose proof (sorted_tail_gt _ _ Hs t2 (or_introl eq_refl)). lra.
   - apply IH. eapply sorted_tail; eauto.
 Qed.
 
